@@ -4,6 +4,8 @@ import Mav.Spec.Writer
 import Mav.Model.Dialect
 import Mav.Model.EnumText
 import Mav.Model.EnumCheck
+import Mav.Spec.Events
+import Mav.Spec.Fanout
 /- mavdrv: one operation per line on stdin, model (and spec) answer per line on stdout. -/
 open Mav Drv
 
@@ -127,6 +129,45 @@ def specEnumUnmarshal (d : EnumText.EnumDef) (t : List Char) : String :=
     | some v => s!"ok:{v}"
     | none => "err"
 
+open Spec.Fan in
+def decOp (s : String) : Option Op :=
+  match s.toList with
+  | k :: t :: rest =>
+    let isMsg := k == 'm'
+    let bad := rest.getLast? == some '!'
+    let body := String.ofList (if bad then rest.dropLast else rest)
+    let ch : Option (Option Nat) := if body == "F" then some none else if body == "" then some none else body.toNat?.map some
+    (match t, ch with
+    | 'a', _ => some { isMsg := isMsg, tgt := .all, bad := bad }
+    | 't', some c => some { isMsg := isMsg, tgt := .to c, bad := bad }
+    | 'x', some c => some { isMsg := isMsg, tgt := .except c, bad := bad }
+    | _, _ => none)
+  | _ => none
+
+open Spec.Fan in
+def decPlan (s : String) : Option Plan :=
+  (s.splitOn ";").mapM (fun g => if g.isEmpty then some [] else (g.splitOn ",").mapM decOp)
+
+open Spec.Fan in
+/-- "m1.4:2:9" / "f0.3:3:1" / "BAD" -/
+def decObsItem (s : String) : Option (Option Obs) :=
+  if s == "BAD" then some none else
+  match s.toList with
+  | k :: rest =>
+    (match (String.ofList rest).splitOn ":" with
+    | [tag, seq, sys] =>
+      (match tag.splitOn "." with
+      | [g, i] => do
+        let g ← g.toNat?; let i ← i.toNat?; let seq ← seq.toNat?; let sys ← sys.toNat?
+        pure (some { isMsg := k == 'm', g := g, i := i, seq := seq, sys := sys })
+      | _ => none)
+    | _ => none)
+  | _ => none
+
+open Spec.Fan in
+def decObs (s : String) : Option (List (List (Option Obs))) :=
+  (s.splitOn ";").mapM (fun c => if c == "-" then some [] else (c.splitOn ",").mapM decObsItem)
+
 def initLine (r : Except Msg.InitErr Msg.RW) : String :=
   match r with
   | .error e => "err:" ++ (match e with
@@ -222,6 +263,34 @@ def step (ds : DState) (line : String) : DState × String :=
           | _ => (acc.1, acc.2 ++ ["bad-item"])) (0, [])
         " ".intercalate outs ++ "\t" ++ " ".intercalate souts
       | _, _, _, _, _ => "bad-op")
+  | ["evcheck", mode, dn, key, stream, pre, post] =>
+    (ds, match keyOf key, decStream stream with
+      | some k, some s =>
+        let cfg : RCfg := { H := H, key := k, dialect := rdialect (ds.get dn) }
+        let evs (oracle : Bool) : List String :=
+          let (rs, _) := readAllD { cfg with specWindow := oracle } (s.length + 2) {} s []
+          "O" :: (rs.filter (fun r => match r with | .terr .eof => false | _ => true)).map encRRes
+        let obs (t : String) : List String := if t == "-" then [] else t.splitOn "~"
+        let verdict (oracle : Bool) : String :=
+          if Spec.evLegal (mode == "drain") (evs oracle) "C(nil)" (obs pre) (obs post) then "ok"
+          else "violation: observed [" ++ pre ++ " | " ++ post ++ "] expected " ++ "~".intercalate (evs oracle) ++ "~C(nil)"
+        verdict false ++ "\t" ++ verdict true
+      | _, _ => "bad-op")
+  | ["fancheck", _k, plan, obs] =>
+    (ds, match decPlan plan, decObs obs with
+      | some p, some o => let v := if Spec.Fan.fanLegal p 9 o then "ok" else "violation"; v ++ "\t" ++ v
+      | _, _ => "bad-op")
+  | ["stallcheck", _k, mode, victim, atS, badIdx, plan, obs, evs] =>
+    (ds, match decPlan plan, decObs obs, victim.toNat?, atS.toNat? with
+      | some p, some o, some v, some a =>
+        let m : Spec.Fan.StallMode := if mode == "block" then .block else if mode == "fail" then .fail else .bad
+        let closeSeen := (evs.splitOn ";").map (fun e => (e.splitOn ",").any (fun x => x.startsWith "C("))
+        -- the item whose write failed: the `a`-th item addressed to the victim (fail), or the unencodable item (bad)
+        let failedItem := if mode == "bad" then (badIdx.toNat?.getD 0) else
+          (((Spec.Fan.expected p v).filter (·.1 == 0)).map (·.2))[a]?.getD 0
+        let r := if Spec.Fan.stallLegal p 9 m v a failedItem o closeSeen then "ok" else "violation"
+        r ++ "\t" ++ r
+      | _, _, _, _ => "bad-op")
   | ["defenum", name, form, consts] =>
     let cs : List (String × Nat) := if consts.isEmpty then [] else (consts.splitOn ",").filterMap (fun kv =>
       match kv.splitOn "=" with
